@@ -8,7 +8,7 @@ The leaves of the translation are math/big accessors; their documented meaning i
 -/
 import NeoModel.Model.Vm
 import NeoModel.Generated.GoFuncs
-open NeoModel NeoModel.Vm
+open NeoModel NeoModel.Vm NeoModel.Generated.GoFuncs
 namespace NeoModel.Vm.GoTie
 
 /-- **checkIntegerSize_eq_inRange.** The translated `CheckIntegerSize` accepts exactly the integers the
@@ -113,5 +113,72 @@ theorem toInt_eq_toInt32 (n i64 : Int) (h64 : (-(2:Int)^63 ≤ n ∧ n < (2:Int)
 
 example : Generated.GoFuncs.vmToInt true 2147483647 = some 2147483647 ∧
     Generated.GoFuncs.vmToInt true 2147483648 = none ∧ Generated.GoFuncs.vmToInt false 0 = none := by decide
+
+/-- **contextJump_eq_checkJump.** `scparser.Context.Jump` accepts exactly the targets the specification's
+`checkJump` accepts (0 ≤ pos < len(prog)). -/
+theorem contextJump_eq_checkJump (t size : Nat) (nip : Int) :
+    vmContextJump t nip size = (match checkJump size t with | .ok r => some (r : Int) | .error _ => none) := by
+  unfold vmContextJump checkJump
+  by_cases h : t ≥ size
+  · have : ((t:Int) < 0 ∨ (t:Int) ≥ size) := Or.inr (by omega)
+    simp [h]
+  · have : ¬ ((t:Int) < 0 ∨ (t:Int) ≥ size) := by omega
+    simp [h]
+
+theorem contextJump_negative (pos nip len : Int) (h : pos < 0) : vmContextJump pos nip len = none := by
+  unfold vmContextJump; simp [h]
+
+set_option maxRecDepth 20000 in
+theorem typeIsValid_table : (List.range 256).all (fun n => vmTypeIsValid (n : Int) == typeValid (UInt8.ofNat n)) = true := by
+  decide +kernel
+
+/-- **typeIsValid_eq_typeValid.** `stackitem.Type.IsValid` is the specification's `typeValid`, for every byte. -/
+theorem typeIsValid_eq_typeValid (b : UInt8) : vmTypeIsValid (b.toNat : Int) = typeValid b := by
+  have h := List.all_eq_true.mp typeIsValid_table b.toNat (List.mem_range.mpr (UInt8.toNat_lt b))
+  have hb : UInt8.ofNat b.toNat = b := by simp
+  rw [hb] at h
+  simpa using h
+
+/-- `big.Int.Cmp`. -/
+def cmpInt (a b : Int) : Int := if a < b then -1 else if a = b then 0 else 1
+
+/-- the specification's `jmpTaken` on two Integer operands (a below b): the six relations. -/
+theorem jmpTaken_int (ia ib : Int256) (st : List Item) :
+    jmpTaken .eq (.int ib :: .int ia :: st) = .ok (ia.val == ib.val, st) ∧
+    jmpTaken .ne (.int ib :: .int ia :: st) = .ok (ia.val != ib.val, st) ∧
+    jmpTaken .gt (.int ib :: .int ia :: st) = .ok (decide (ia.val > ib.val), st) ∧
+    jmpTaken .ge (.int ib :: .int ia :: st) = .ok (decide (ia.val ≥ ib.val), st) ∧
+    jmpTaken .lt (.int ib :: .int ia :: st) = .ok (decide (ia.val < ib.val), st) ∧
+    jmpTaken .le (.int ib :: .int ia :: st) = .ok (decide (ia.val ≤ ib.val), st) := by
+  refine ⟨?_, ?_, ?_, ?_, ?_, ?_⟩ <;>
+    simp [jmpTaken, popInt, popE, Item.toInteger, optE, bind, Except.bind, pure, Except.pure]
+
+/-- the opcode bytes of the comparing jumps decode to these relations (short and long form). -/
+theorem jmp_bytes :
+    Op.ofByte 40 = some (.jmp .eq false) ∧ Op.ofByte 41 = some (.jmp .eq true) ∧
+    Op.ofByte 42 = some (.jmp .ne false) ∧ Op.ofByte 43 = some (.jmp .ne true) ∧
+    Op.ofByte 44 = some (.jmp .gt false) ∧ Op.ofByte 45 = some (.jmp .gt true) ∧
+    Op.ofByte 46 = some (.jmp .ge false) ∧ Op.ofByte 47 = some (.jmp .ge true) ∧
+    Op.ofByte 48 = some (.jmp .lt false) ∧ Op.ofByte 49 = some (.jmp .lt true) ∧
+    Op.ofByte 50 = some (.jmp .le false) ∧ Op.ofByte 51 = some (.jmp .le true) := by decide
+
+/-- **getJumpCondition_eq_jmpTaken.** For the twelve comparing jumps JMPEQ … JMPLE_L (bytes 40…51, `jmp_bytes`) the
+translated `getJumpCondition`, applied to `a.Cmp(b)`, is the relation the specification's `jmpTaken` uses
+(`jmpTaken_int`); any other opcode byte is rejected. -/
+theorem getJumpCondition_eq_jmpTaken (a b : Int) :
+    vmGetJumpCondition 40 (cmpInt a b) = some (a == b) ∧ vmGetJumpCondition 41 (cmpInt a b) = some (a == b) ∧
+    vmGetJumpCondition 42 (cmpInt a b) = some (a != b) ∧ vmGetJumpCondition 43 (cmpInt a b) = some (a != b) ∧
+    vmGetJumpCondition 44 (cmpInt a b) = some (decide (a > b)) ∧ vmGetJumpCondition 45 (cmpInt a b) = some (decide (a > b)) ∧
+    vmGetJumpCondition 46 (cmpInt a b) = some (decide (a ≥ b)) ∧ vmGetJumpCondition 47 (cmpInt a b) = some (decide (a ≥ b)) ∧
+    vmGetJumpCondition 48 (cmpInt a b) = some (decide (a < b)) ∧ vmGetJumpCondition 49 (cmpInt a b) = some (decide (a < b)) ∧
+    vmGetJumpCondition 50 (cmpInt a b) = some (decide (a ≤ b)) ∧ vmGetJumpCondition 51 (cmpInt a b) = some (decide (a ≤ b)) ∧
+    (∀ op c, (op < 40 ∨ op > 51) → vmGetJumpCondition op c = none) := by
+  refine ⟨?_, ?_, ?_, ?_, ?_, ?_, ?_, ?_, ?_, ?_, ?_, ?_, ?_⟩
+  all_goals first
+    | (intro op c h; unfold vmGetJumpCondition
+       rw [if_neg (by omega), if_neg (by omega), if_neg (by omega), if_neg (by omega), if_neg (by omega), if_neg (by omega)])
+    | (simp only [vmGetJumpCondition, cmpInt]
+       by_cases h1 : a < b <;> by_cases h2 : a = b <;> simp [h1, h2] <;> omega)
+
 
 end NeoModel.Vm.GoTie
